@@ -38,6 +38,21 @@ Theorem C05_slot_ownership : forall h,
 Proof. exact ownership. Qed.
 Print Assumptions C05_slot_ownership.
 
+(* Files DERIVED from a disk-backed object (copy / subset / slice / mask / rename / insertDimension ...: in-memory, built through
+   copyVariable and copyDimension) keep what they captured whatever happens afterwards to the source or to any other object:
+   any later opens, closes, finalisers, further derivations. *)
+Theorem C05_derived_survives : forall h1 h2 d x,
+  nth_error (snd (drun h1)) d = Some x -> use (drun (h1 ++ h2)) d = x.
+Proof. exact derived_survives. Qed.
+Print Assumptions C05_derived_survives.
+
+(* deriving from an object that received no close captures that object's own file; every later use returns it *)
+Theorem C05_derive_captures_source : forall h1 h2 o ob,
+  nth_error (objs (impl_run (prims_of h1))) o = Some ob -> ~ In (Close o) (prims_of h1) ->
+  use (drun (h1 ++ Derive o :: h2)) (length (snd (drun h1))) = Some (o_file ob).
+Proof. exact derive_captures_source. Qed.
+Print Assumptions C05_derive_captures_source.
+
 (* ================= inputs are never modified, results never alias ================================= *)
 
 (* Heap level, any cell type, any heap: an operation all of whose output variables are fresh allocations leaves every
@@ -88,9 +103,9 @@ Print Assumptions C05_fresh_hypothesis_needed.
 
 (* FULL strength for the queries (time decoding, value-to-index lookup, dump/repr, save): whatever the file (any number of
    variables, in memory or disk-backed) they leave the heap exactly as it was and return no buffer. *)
-Theorem C05_queries_pure : forall (c : call) (mem : bool) (vars : list nat) A (junk : list A) (h : heap A),
+Theorem C05_queries_pure : forall (c : call) (mem : bool) (vars dims : list nat) A (junk : list A) (h : heap A),
   is_query c = true ->
-  run_actions A h (actions_of (impl_effs (Call c mem vars)) [] junk) = (h, []).
+  run_actions A h (actions_of (impl_effs (Call c mem vars dims)) [] junk) = (h, []).
 Proof. exact queries_pure. Qed.
 Print Assumptions C05_queries_pure.
 
@@ -101,6 +116,12 @@ Theorem C05_programs_safe : forall (c : call) (v : nat -> src) (vars : list nat)
 Proof. exact all_safe. Qed.
 Print Assumptions C05_programs_safe.
 
+(* ... including the DIMENSION OBJECTS of the result: every call builds them with copyDimension / createDimension, never by
+   storing the input's own object (any number of dimensions) *)
+Theorem C05_dimension_objects_fresh : forall c mem vars dims, impl_effs (Call c mem vars dims) = [].
+Proof. exact whole_safe. Qed.
+Print Assumptions C05_dimension_objects_fresh.
+
 (* ... and the transcription can tell: the statements that the repaired calls used to contain do have effects. *)
 Theorem C05_old_statements_have_effects :
   exec [StoreObject (SVar 2)] = [EAlias 2]
@@ -109,7 +130,8 @@ Theorem C05_old_statements_have_effects :
   /\ exec [StoreObject (SView (SView (SView (SView (SVar 3)))))] = [EAlias 3]
   /\ exec [StoreObject (SView (SView (SVar 1)))] = [EAlias 1]
   /\ exec [Inplace (SView (SView (SVar 1)))] = [EMutate 1]
-  /\ exec [StoreObject (SView (SDisk 2))] = [].
+  /\ exec [StoreObject (SView (SDisk 2))] = []
+  /\ exec [StoreDimension 501] = [EAlias 501].
 Proof. exact old_statements_have_effects. Qed.
 Print Assumptions C05_old_statements_have_effects.
 
@@ -121,8 +143,14 @@ Example C05_history_inhabited :
 Proof. vm_compute. split; reflexivity. Qed.
 
 Example C05_isolated_inhabited :
-  isolated (Call Reorder true [0; 1; 2; 3]) = true /\ isolated (Call (EvalName 2) true [0; 1; 2]) = true
-  /\ isolated (Call (Val2idxBounds 0) true [0; 1]) = true
+  isolated (Call Reorder true [0; 1; 2; 3] [500; 501]) = true /\ isolated (Call (EvalName 2) true [0; 1; 2] [500]) = true
+  /\ isolated (Call (Val2idxBounds 0) true [0; 1] [500]) = true
   /\ length (prog_of Reorder (var_src true) [0; 1; 2; 3]) = 8
-  /\ run_actions nat [[1; 2]] (actions_of (impl_effs (Call Copy true [0])) [[1; 2]; [7]] []) = ([[1; 2]; [1; 2]; [7]], [1; 2]).
+  /\ run_actions nat [[1; 2]] (actions_of (impl_effs (Call Copy true [0] [500])) [[1; 2]; [7]] []) = ([[1; 2]; [1; 2]; [7]], [1; 2]).
 Proof. vm_compute. repeat split; reflexivity. Qed.
+
+Example C05_derived_inhabited :
+  snd (drun [P (Open 0); P (Open 1); Derive 0; P (Close 0); Derive 1; P (Open 2); P (Close 1); P (Close 0)]) = [Some 0; Some 1]
+  /\ reads (fst (drun [P (Open 0); P (Open 1); Derive 0; P (Close 0); Derive 1; P (Open 2); P (Close 1); P (Close 0)])) [0; 1; 2]
+     = [Some 2; None; Some 2].   (* both sources are closed (object 0 remembers slot 1, now file 2's); the derived files still hold files 0 and 1 *)
+Proof. vm_compute. split; reflexivity. Qed.
